@@ -6,9 +6,10 @@ import XpmVerif.Model.GenPathHist
                  | {"op":"construct","node":{…as in "nodes"…}} | {"op":"set","n":i,"k":name,"v":val,"pos":p}
                  | {"op":"addpre","n":i,"t":j} | {"op":"mark","root":i,"o":j} …]}
          val = null | {"s":1} | {"l":[val…]} | {"d":[[key,val]…]} | {"r":id}
-    out: {"submits":[{"ok":bool,"okany":bool,"entries":[{"node","arg","abs","comps"}…]}…] (one per submit op),
+    out: {"submits":[{"ok":bool,"okany":bool,"accepted":bool,"entries":[{"node","arg","abs","comps"}…]}…] (one per submit op;
+          entries = the walk of the task, then of its init tasks under __init_tasks__/i; a task submitted before is rejected),
           "wf":bool (Hist.WF of the ops), "init":bool (Graph.Init of "nodes"),
-          "final":{"ok":bool,"sealed":[bool…],"task":[id|null…]},
+          "final":{"ok":bool,"sealed":[bool…],"task":[id|null…],"jobs":[ids]},
           "log":[{"job":root,"node","arg","abs","comps"}…] (HState.paths at the end)}
     Every op goes through `HState.step` (the model the history theorems are about). -/
 open Lean XpmVerif XpmVerif.J XpmVerif.GenPath
@@ -53,14 +54,17 @@ def step (_ : Unit) (j : Json) : Unit × Json :=
     | .submit root inits _ =>
       -- the hypotheses of the theorems, evaluated on the graph this submission walks
       let g1 : Graph := ⟨setAt s.g.nodes root (fun nd => { nd with initTasks := inits })⟩
-      let es := (submit enc s.g root inits).2
-      (s', outs ++ [Json.mkObj [("ok", g1.okB enc), ("okany", g1.okAnyB), ("entries", Json.arr (es.map entryJ).toArray)]])
+      -- what this step added to the log (nothing when the submission is rejected: already submitted / unknown object)
+      let es := (s'.paths.drop s.paths.length).map Prod.snd
+      (s', outs ++ [Json.mkObj [("ok", g1.okB enc), ("okany", g1.okAnyB), ("accepted", decide (s'.jobs.length > s.jobs.length)),
+        ("entries", Json.arr (es.map entryJ).toArray)]])
     | _ => (s', outs)) (({ g := g0 } : HState), [])
   let logJ := sf.paths.map (fun x => Json.mkObj [("job", x.1), ("node", x.2.node), ("arg", String.ofList x.2.arg),
     ("abs", x.2.path.abs), ("comps", Json.arr (x.2.path.comps.map (fun c => Json.str (String.ofList c))).toArray)])
   let finalJ := Json.mkObj [("ok", sf.g.okB enc),
     ("sealed", Json.arr (sf.g.nodes.map (fun nd => Json.bool nd.isSealed)).toArray),
-    ("task", Json.arr (sf.g.nodes.map (fun nd => match nd.task with | some t => (t : Json) | none => Json.null)).toArray)]
+    ("task", Json.arr (sf.g.nodes.map (fun nd => match nd.task with | some t => (t : Json) | none => Json.null)).toArray),
+    ("jobs", Json.arr (sf.jobs.map (fun (n : Nat) => (n : Json))).toArray)]
   ((), Json.mkObj [("submits", Json.arr outs.toArray), ("wf", Hist.wfB enc ops), ("init", g0.initB enc),
     ("final", finalJ), ("log", Json.arr logJ.toArray)])
 
